@@ -693,6 +693,19 @@ def generate(tier, seed):
         if r['steps']:
             r['family'] = 'composition'
             recs.append(r)
+    # (6) extrusion: cross-sections x connected line meshes under arbitrary vertex numberings, both operand orders
+    for j in range(40 if thorough else 10):
+        if j % 3 == 2:
+            spec = _line_spec(rng)
+        else:
+            p, t = U.tri_lattice(1 + j % 2, 1, None)
+            t = U.apply_local_orders('tri', t, rng)
+            spec = _mesh_spec('tri', p, t)
+        other = _line_spec(rng)
+        if j % 3 == 1:       # line * tri  (MeshLine1.__mul__ delegates to the triangle mesh)
+            spec, other = other, spec
+        recs.append({'driver': 'surgery', 'mesh': spec, 'steps': [{'op': 'extrude', 'other': other}],
+                     'family': 'extrude'})
     # (5) extrusion along a line mesh with several components (the product of the operands has a gap)
     gl = _mesh_spec('line', [[0., 1., 3., 4.]], [[0, 2], [1, 3]])
     p, t = U.tri_lattice(1, 1, (0,))
